@@ -25,7 +25,8 @@ pub enum Delivery {
     Latest,
     Replay(usize),
     Garbage,
-    NoData,
+    /// a frame without data; the index picks the status: 20, 10, 11, an unknown code, none
+    NoData(u8),
     BitFlip(usize, usize),
     Truncate(usize, usize),
     Foreign,
@@ -263,7 +264,13 @@ impl World {
                     Ok(sd) => if sd.data.is_some() { (b, sym_junk()) } else { (b, arr(vec![uint(1)])) },
                 }
             }
-            Delivery::NoData => (session_data(None, Some(20)), arr(vec![uint(1)])),
+            Delivery::NoData(k) => {
+                // a frame without data: session termination (20), the error statuses (10, 11), an unknown status, none
+                let st = [Some(20u64), Some(10), Some(11), Some(99), None][*k as usize % 5];
+                let b = session_data(None, st);
+                // (an unknown status code is not a SessionData at all)
+                match isomdl::cbor::from_slice::<isomdl::definitions::SessionData>(&b) { Ok(_) => (b, arr(vec![uint(1)])), Err(_) => (b, arr(vec![uint(0)])) }
+            }
             Delivery::BitFlip(i, bit) => match pick(log, *i) {
                 Some((b, _)) => {
                     let mut data = data_of(&b).unwrap();
@@ -592,7 +599,7 @@ pub fn random_delivery(rng: &mut StdRng, adversarial: f64) -> Delivery {
         13 => Delivery::CraftedBytesKeyed,
         0 => Delivery::Replay(rng.gen_range(0..8)),
         1 => Delivery::Garbage,
-        2 => Delivery::NoData,
+        2 => Delivery::NoData(rng.gen_range(0..5)),
         3 | 4 => Delivery::BitFlip(rng.gen_range(0..8), rng.gen_range(0..100_000)),
         5 => Delivery::Truncate(rng.gen_range(0..8), rng.gen_range(0..100_000)),
         6 => Delivery::Foreign,
